@@ -62,18 +62,36 @@ def connecting_functions(chk: Check) -> list[FunctionInfo]:
 
 
 def verify_tuples(chk: Check) -> list[tuple[bool, str]]:
-    fi = chk.proj.func(f"{TOFU}.verify")
-    out = []
-    for r in walk(fi.node):
-        if isinstance(r, ast.Return) and isinstance(r.value, ast.Tuple) and len(r.value.elts) == 2:
-            a, b = r.value.elts
-            if isinstance(a, ast.Constant) and isinstance(b, ast.Constant):
-                out.append((a.value, b.value))
-            else:
-                out.append(("?", norm(r.value)))
-        elif isinstance(r, ast.Return):
-            out.append(("?", norm(r.value)))
-    return out
+    """Literal (bool, str) outcomes of TOFUDatabase.verify, followed through
+    helper methods it returns from (`return self._check(...)`) and through
+    single-assignment locals."""
+    top = chk.proj.func(f"{TOFU}.verify")
+    out: list = []
+
+    def collect(fi, depth: int) -> None:
+        for r in walk(fi.node):
+            if not isinstance(r, ast.Return):
+                continue
+            vals = [r.value]
+            if isinstance(r.value, ast.Name):
+                ds = [st.value for st in walk(fi.node) if isinstance(st, ast.Assign) and any(isinstance(t, ast.Name) and t.id == r.value.id for t in st.targets)]
+                if ds:
+                    vals = ds
+            for v in vals:
+                if isinstance(v, ast.Tuple) and len(v.elts) == 2 and all(isinstance(e, ast.Constant) for e in v.elts):
+                    out.append((v.elts[0].value, v.elts[1].value))
+                elif isinstance(v, ast.Call) and (dotted(v.func) or "").startswith("self.") and fi.cls is not None and depth < 3 and chk.proj.find_method(fi.cls, (dotted(v.func) or "")[5:]) is not None:
+                    collect(chk.proj.find_method(fi.cls, (dotted(v.func) or "")[5:]), depth + 1)
+                else:
+                    out.append(("?", norm(v) if v is not None else "None"))
+
+    collect(top, 0)
+    seen, uniq = set(), []
+    for t in out:
+        if t not in seen:
+            seen.add(t)
+            uniq.append(t)
+    return uniq
 
 
 def _unwrap(c: ast.Call):
@@ -373,7 +391,9 @@ def rule_t4(chk: Check) -> None:
     chk.ob("T4", "no call site overrides the algorithm", okc, evals=n)
     # verify compares stored == computed-from-cert
     vf = chk.proj.func(f"{TOFU}.verify")
-    gv = build_cfg(chk.proj, vf)
+    from ..cfg import Builder, inline_self_methods
+
+    gv = Builder(chk.proj, inline_self_methods, 3).build(vf)  # the lookup may live in a helper
     dv = Defs(gv)
     cmp = [n for n in gv.nodes if n.kind == "test" and isinstance(n.ast, ast.Compare) and "fingerprint" in norm(n.ast)]
     okv = False
